@@ -252,6 +252,21 @@ func (e *Exec) callFunc(f *ssa.Function, bindings []Val, c *ssa.CallCommon, args
 	if ct := e.P.ContractOf(f); ct != nil && !ct.Flags["inline"] {
 		return e.contractCall(f, ct, c, args)
 	}
+	if antlrStatic(f) {
+		e.root().Assumed["A-ANTLR-RT"] = true
+		recv := e.toTerm(args[0], c.Args[0].Type())
+		if recv.Sort == SIface {
+			e.safety("nilderef", Neq(ITag(recv), IntLit(0)))
+			recv = IVal(recv)
+		} else if _, isPtr := c.Args[0].Type().Underlying().(*types.Pointer); isPtr {
+			e.safety("nilderef", Neq(recv, IntLit(0)))
+		}
+		var as []*Term
+		for i := 1; i < len(args); i++ {
+			as = append(as, e.toTerm(args[i], c.Args[i].Type()))
+		}
+		return e.antlrResult(f.Name(), recv, as, f.Signature.Results())
+	}
 	if e.canInline(f) {
 		return e.inlineCall(f, bindings, args)
 	}
